@@ -4,6 +4,8 @@ CONSTANTS
   RespMsgs <- MCRespMsgs
   ReqDef <- MCReqDef
   RespDef <- MCRespDef
+  ReqNext <- MCReqNext
+  RespNext <- MCRespNext
   MaxReq = ${MaxReq}
   MaxResp = ${MaxResp}
   AuthModes <- MCAuthModes
